@@ -14,6 +14,7 @@
 From Coq Require Import String Ascii.
 Require Import Hdl21.Base.PyInt Hdl21.Spec.SimSpec Hdl21.Model.SimExport Hdl21.Proofs.C17Proofs.
 Require Import Hdl21.Base.Dec Hdl21.Model.C17Float Hdl21.Proofs.C17NearestProofs Hdl21.Proofs.C17FloatProofs.
+Require Import Hdl21.Proofs.C17RoundProofs.
 Require Import Hdl21Gen.C17Tables.
 Open Scope list_scope.
 Open Scope Z_scope.
@@ -329,6 +330,34 @@ Proof.
 Qed.
 Print Assumptions C17_export_concrete_meets_spec.
 
+(* 11. the nearest double exists and is computed: round_dbl (Model/C17Float.v: scaling to units of 2^-1076, binade from the
+       bit length, half-even on quotient and remainders, renormalisation, overflow) satisfies the specification for EVERY
+       decimal - normal, subnormal, zero, overflowing, negative.  With uniqueness: nearest_double m e is the graph of
+       round_dbl, and every correctly rounding float() IS round_dec.  The hypothesis of the theorems of section 10 is
+       therefore satisfiable, and the concrete exporter with round_dec has no hypothesis left but hier_wf. *)
+Theorem C17_round_dbl_nearest m e : nearest_double m e (round_dbl m e) = true.
+Proof. exact (round_dbl_nearest m e). Qed.
+Print Assumptions C17_round_dbl_nearest.
+
+Theorem C17_nearest_double_function m e d : nearest_double m e d = true <-> d = round_dbl m e.
+Proof. exact (nearest_double_iff m e d). Qed.
+Print Assumptions C17_nearest_double_function.
+
+Theorem C17_correct_float_is_round_dec (rnd : dec -> dbl) :
+  (forall d, nearest_double (dint d) (dexp d) (rnd d) = true) -> forall d, rnd d = round_dec d.
+Proof. intros HN d. apply (nearest_double_iff (dint d) (dexp d)). apply HN. Qed.
+Print Assumptions C17_correct_float_is_round_dec.
+
+Theorem C17_export_computed_meets_spec l : hier_wf l = true ->
+  spec_all frel_nearest l (to_option (export_all_c round_dec l)) = true.
+Proof. apply C17_export_concrete_meets_spec. intros d. apply round_dbl_nearest. Qed.
+Print Assumptions C17_export_computed_meets_spec.
+
+(* every float field the computed exporter emits is a concrete double (no symbol is left) *)
+Theorem C17_export_float_computed x f : export_float round_dec x = Ok f -> num_ok frel_nearest x (FDbl f) = true.
+Proof. apply C17_export_float_nearest. intros d. apply round_dbl_nearest. Qed.
+Print Assumptions C17_export_float_computed.
+
 (* ------------------------------------------------------------------------------------------ *)
 (* non-vacuity: concrete, non-trivial instances                                                *)
 (* ------------------------------------------------------------------------------------------ *)
@@ -435,3 +464,26 @@ Example C17_ex_nearest :
   nearest_double 1 (-1) (DFin false 7205759403792793 (-56)) = false /\
   nearest_double 1 (-1) (DFin false 7205759403792795 (-56)) = false.
 Proof. vm_compute. repeat split; discriminate. Qed.
+
+(* round_dbl on the corners: 0.1, the smallest subnormal and the tie below it (to even: 0), just above that tie, the
+   largest double, the overflow threshold (tie: to infinity) and just below it, a negative overflow, zero, and the
+   54-digit value of C17_export_float_ctx28_refuted *)
+Example C17_ex_round_dbl :
+  round_dbl 1 (-1) = DFin false 7205759403792794 (-56) /\
+  round_dbl 5 (-324) = DFin false 1 (-1074) /\
+  round_dbl 24703282292062327208 (-343) = DFin false 0 (-1074) /\
+  round_dbl 24703282292062327209 (-343) = DFin false 1 (-1074) /\
+  round_dbl 17976931348623157 292 = DFin false 9007199254740991 971 /\
+  round_dbl (2 ^ 1024 - 2 ^ 970) 0 = DInf false /\
+  round_dbl (2 ^ 1024 - 2 ^ 970 - 1) 0 = DFin false 9007199254740991 971 /\
+  round_dbl (-1) 400 = DInf true /\ round_dbl 0 7 = DFin false 0 (-1074) /\
+  export_float round_dec w28_milli = Ok (DFin false 4503599627370496 (-52)) /\
+  export_float_ctx round_dec (Some 28) w28_milli = Ok (DFin false 4503599627370497 (-52)).
+Proof. vm_compute. repeat split. Qed.
+
+(* the computed exporter on the example Sims: accepted, and the nanosecond transient carries the double nearest to 1e-9 *)
+Example C17_ex_computed :
+  hier_wf ex_sims = true /\
+  option_map (fun outs => map (fun o => hd (OOp "") (o_an o)) outs) (to_option (export_all_c round_dec ex_sims)) =
+  Some [OTran "Analysis0" (FDbl (DFin false 4835703278458517 (-82))) (FDbl (DFin false 0 (-1074))); OOp "Analysis0"; OOp ""].
+Proof. vm_compute. split; reflexivity. Qed.
